@@ -32,6 +32,13 @@ CaseOf ==
   ELSE IF last.op = "since" THEN
     [op |-> "PlainDate.since", cls |-> Cls, args |-> [recv |-> last.a, other |-> last.b, st |-> [largest |-> last.u]],
      out |-> Ok(DateDur(-last.r.y, -last.r.mo, -last.r.w, -last.r.d))]
+  ELSE IF last.op = "addTime" THEN
+    [op |-> "PlainDate.add", cls |-> "with-time-part/" \o (IF last.tf.short THEN "one-ns-short" ELSE "whole-hours"),
+     args |-> [recv |-> last.a, ovf |-> last.ovf,
+               dur |-> LET g == last.sg   t == last.tf
+                       IN IF t.short THEN Dur10(FromInt(last.dur.y), FromInt(last.dur.mo), FromInt(last.dur.w), FromInt(last.dur.d), FromInt(g * (t.h - 1)), FromInt(g * 59), FromInt(g * 59), FromInt(g * 999), FromInt(g * 999), FromInt(g * 999))
+                          ELSE Dur10(FromInt(last.dur.y), FromInt(last.dur.mo), FromInt(last.dur.w), FromInt(last.dur.d), FromInt(g * t.h), Zero, Zero, Zero, Zero, Zero)],
+     out |-> last.out]
   ELSE IF last.op = "add" THEN
     [op |-> "PlainDate.add", cls |-> Cls, args |-> [recv |-> last.a, dur |-> DI(last.dur), ovf |-> last.ovf], out |-> last.out]
   ELSE
